@@ -89,6 +89,12 @@ ToggleInfo ==
   /\ hist' = H(Ev("info", 0, ~info))
   /\ UNCHANGED <<table, st, nobj, queue, busy, timers, fails>>
 
+(* a reload changes the job's metric relabel rules (its HTTP client settings stay): probes that start afterwards *)
+(* count under the new rules - the estimate is always that of the probe that succeeded                          *)
+ToggleRules ==
+  /\ Record /\ hist' = H(Ev("rules", 0, TRUE))
+  /\ UNCHANGED <<table, st, nobj, queue, busy, timers, fails, info>>
+
 ProbeOK(w) ==
   /\ busy[w].o # 0
   /\ LET o == busy[w].o IN
@@ -121,7 +127,7 @@ Next ==
   \/ \E t \in Targets : Get(t)
   \/ \E w \in Workers : Dequeue(w) \/ ProbeOK(w) \/ ProbeFail(w)
   \/ \E o \in timers : TimerFire(o)
-  \/ ToggleInfo
+  \/ ToggleInfo \/ ToggleRules
 
 Spec == Init /\ [][Next]_vars
 \* liveness is stated for a job whose scrape info stays available
